@@ -174,85 +174,153 @@ Section R.
         exfalso. subst t. apply memN_In in Ht. congruence.
   Qed.
 
-  Lemma collect_outs_ok : forall st tasks,
-    (forall x, In x tasks -> exists o, node_out asrt emit st x = Some o /\ done_ok st (fst x, o) /\
-                                       post_ok asrt st (fst x) (Some o) = true) ->
-    forallb (fun p => post_ok asrt st (fst (fst p)) (snd p)) (combine tasks (map (node_out asrt emit st) tasks)) = true /\
-    exists l, collect_outs tasks (map (node_out asrt emit st) tasks) = Some l /\ forall y, In y l -> done_ok st y.
-  Proof.
-    intros st tasks. induction tasks as [|[k d] rest IH]; intros H; simpl.
-    - split; [reflexivity|]. exists []. split; [reflexivity | intros y []].
-    - destruct (H (k, d) (or_introl eq_refl)) as [o [No [Do Po]]]. cbn [fst snd] in No, Do, Po.
-      destruct (IH (fun x Hx => H x (or_intror Hx))) as [F [l [Cl Dl]]].
-      rewrite No. rewrite Po, F. split; [reflexivity|].
-      rewrite Cl. exists ((k, o) :: l). split; [reflexivity|].
-      intros y [Hy|Hy]; [subst y; exact Do | apply Dl; exact Hy].
-  Qed.
-
   Lemma has_type_assert : forall d t, asrt d t = true -> has_type u d t = true.
   Proof. intros d t H. unfold has_type. rewrite <- assert_type_assignable. exact H. Qed.
   Lemma assert_has_type : forall d t, has_type u d t = true -> asrt d t = true.
   Proof. intros d t H. rewrite assert_type_assignable. exact H. Qed.
 
-  Lemma exec_all_safe : forall st tasks,
-    compiled_ok st -> emit_ok st ->
-    (forall x, In x tasks -> task_ok st x /\ has_node st (fst x) = true) ->
-    exists done, exec_all asrt emit st tasks = inr done /\ forall y, In y done -> done_ok st y.
+  (* what Go's static typing guarantees about the state handlers of the lambda nodes: a
+     handler declared for the type t returns a value of type t.  (The handlers of a
+     passthrough node are declared for any: nothing is known about what they return.) *)
+  Definition hret_ok (st : gstate) : Prop :=
+    forall k n, get_node st k = Some n -> n_pass n = false ->
+      (forall d t, n_pre_ret n = Some d -> n_pre n = Some t -> has_type u d t = true) /\
+      (forall d t, n_post_ret n = Some d -> n_post n = Some t -> has_type u d t = true).
+
+  Definition hret_okb (st : gstate) : bool :=
+    forallb (fun p => n_pass (snd p) ||
+       (match n_pre_ret (snd p), n_pre (snd p) with Some d, Some t => has_type u d t | _, _ => true end &&
+        match n_post_ret (snd p), n_post (snd p) with Some d, Some t => has_type u d t | _, _ => true end)) (g_nodes st).
+  Lemma hret_okb_sound : forall st, hret_okb st = true -> hret_ok st.
   Proof.
-    intros st tasks [I C] EM HT. unfold exec_all.
-    pose proof (inv_nodes _ _ I) as NO.
+    intros st H k n G P. unfold hret_okb in H. rewrite forallb_forall in H.
+    specialize (H (k, n) (nlist_get_In _ _ _ G)). simpl in H. rewrite P in H. simpl in H.
+    apply andb_true_iff in H. destruct H as [H1 H2]. split; intros d t R T.
+    - rewrite R, T in H1. exact H1.
+    - rewrite R, T in H2. exact H2.
+  Qed.
+
+  Definition tasks_ok (st : gstate) (tasks : list (key * dyn)) : Prop :=
+    forall x, In x tasks -> task_ok st x /\ has_node st (fst x) = true.
+
+  (* the pre handlers: no assertion fails; a passthrough node's handler may return a value
+     that is not of the node's type (ordinary error) *)
+  Lemma pre_all_safe : forall st tasks,
+    compiled_ok st -> hret_ok st -> tasks_ok st tasks ->
+    match pre_all asrt st tasks with
+    | inl o => o = RTypeErr
+    | inr t1 => tasks_ok st t1
+    end.
+  Proof.
+    intros st tasks [I C] HR. pose proof (inv_nodes _ _ I) as NO.
+    induction tasks as [|[k d] rest IH]; intros HT; simpl.
+    - intros x [].
+    - destruct (HT (k, d) (or_introl eq_refl)) as [[t [It At]] Hn]. simpl in It, At, Hn.
+      unfold pre_res. simpl. unfold has_node in Hn. destruct (get_node st k) as [n|] eqn:G; [|discriminate].
+      destruct (NO k n G) as [[Pp [Pl [Pr _]]] _].
+      destruct (types_of_node st k n NO G) as [Ti _].
+      assert (IHr : match pre_all asrt st rest with inl o => o = RTypeErr | inr t1 => tasks_ok st t1 end).
+      { apply IH. intros x Hx. apply HT. right; exact Hx. }
+      assert (KEEP : forall d1, asrt d1 t = true ->
+                match (match pre_all asrt st rest with inl o => inl o | inr l => inr ((k, d1) :: l) end) with
+                | inl o => o = RTypeErr | inr t1 => tasks_ok st t1 end).
+      { intros d1 A1. destruct (pre_all asrt st rest) as [o|l]; [exact IHr|].
+        intros x [Hx|Hx]; [|apply IHr; exact Hx]. subst x. split; [exists t; simpl; auto|]. simpl. unfold has_node. rewrite G. reflexivity. }
+      unfold run_handler. destruct (n_pre n) as [t0|] eqn:Pn; [|apply KEEP; exact At].
+      specialize (Pr t0 eq_refl).
+      destruct (n_pass n) eqn:Ps.
+      + subst t0. rewrite assert_any. simpl. rewrite <- Ti, It.
+        destruct (asrt (match n_pre_ret n with Some r => r | None => d end) t) eqn:A1; [apply KEEP; exact A1 | reflexivity].
+      + rewrite Ti, Pr in It. inversion It; subst t0. rewrite At. simpl. apply KEEP.
+        destruct (n_pre_ret n) as [r|] eqn:R; [|exact At].
+        apply assert_has_type. destruct (HR k n G Ps) as [H1 _]. eapply H1; eauto.
+  Qed.
+
+  Lemma post_safe : forall st k d,
+    compiled_ok st -> emit_ok st -> hret_ok st -> task_ok st (k, d) -> has_node st k = true ->
+    exists r, post_res asrt st k (node_out asrt emit st (k, d)) = Some r /\
+              (r = TTypeErr \/ exists d1, r = TVal d1 /\ done_ok st (k, d1)).
+  Proof.
+    intros st k d [I C] EM HR [t [It At]] Hn. simpl in It, At. pose proof (inv_nodes _ _ I) as NO.
+    unfold has_node in Hn. destruct (get_node st k) as [n|] eqn:G; [|discriminate].
+    destruct (NO k n G) as [[Pp [Pl [_ Po]]] _].
+    destruct (types_of_node st k n NO G) as [Ti To].
+    (* the value the node hands to its post handler, of the node's output type *)
+    assert (OUT : exists o to, node_out asrt emit st (k, d) = Some o /\ n_out n = Some to /\ has_type u o to = true).
+    { unfold node_out. simpl. rewrite G. destruct (n_pass n) eqn:Ps.
+      - exists d, t. split; [reflexivity|]. split; [rewrite <- (Pp eq_refl), <- Ti; exact It | apply has_type_assert; exact At].
+      - destruct (Pl eq_refl) as [ti [to [Hi Ho]]]. rewrite Hi. rewrite Ti, Hi in It. inversion It; subst t. rewrite At.
+        exists (emit_of emit st k), to. split; [reflexivity|]. split; [exact Ho | eapply EM; eauto]. }
+    destruct OUT as [o [to [NOUT [Ho HT]]]]. rewrite NOUT. unfold post_res. rewrite G.
+    assert (KEEP : forall d1, has_type u d1 to = true ->
+              exists r, Some (TVal d1) = Some r /\ (r = TTypeErr \/ exists d2, r = TVal d2 /\ done_ok st (k, d2))).
+    { intros d1 H1. exists (TVal d1). split; [reflexivity|]. right. exists d1. split; [reflexivity|].
+      exists to. simpl. split; [rewrite To; exact Ho | exact H1]. }
+    unfold run_handler. destruct (n_post n) as [t0|] eqn:Pn; [|apply KEEP; exact HT].
+    specialize (Po t0 eq_refl).
+    destruct (n_pass n) eqn:Ps.
+    - subst t0. rewrite assert_any. simpl. rewrite Ho.
+      destruct (asrt (match n_post_ret n with Some r => r | None => o end) to) eqn:A1.
+      + apply KEEP. apply has_type_assert; exact A1.
+      + exists TTypeErr. split; [reflexivity | left; reflexivity].
+    - rewrite Po in Ho. inversion Ho; subst t0. rewrite (assert_has_type _ _ HT). simpl. apply KEEP.
+      destruct (n_post_ret n) as [r|] eqn:R; [|exact HT].
+      destruct (HR k n G Ps) as [_ H2]. eapply H2; eauto.
+  Qed.
+
+  Lemma collect_safe : forall st t1,
+    compiled_ok st -> emit_ok st -> hret_ok st -> tasks_ok st t1 ->
+    forallb (fun r : option tres => match r with Some _ => true | None => false end)
+            (map (fun t => post_res asrt st (fst t) (node_out asrt emit st t)) t1) = true /\
+    match collect_outs t1 (map (fun t => post_res asrt st (fst t) (node_out asrt emit st t)) t1) with
+    | inl o => o = RTypeErr
+    | inr l => forall y, In y l -> done_ok st y
+    end.
+  Proof.
+    intros st t1 CO EM HR. induction t1 as [|[k d] rest IH]; intros HT; simpl.
+    - split; [reflexivity | intros y []].
+    - destruct (HT (k, d) (or_introl eq_refl)) as [TK Hn]. simpl in Hn.
+      destruct (post_safe st k d CO EM HR TK Hn) as [r [PR Q]]. rewrite PR.
+      destruct (IH (fun x Hx => HT x (or_intror Hx))) as [F L]. rewrite F. split; [reflexivity|].
+      destruct Q as [Q|[d1 [Q D1]]]; subst r; [reflexivity|].
+      destruct (collect_outs rest _) as [o|l]; [exact L|].
+      intros y [Hy|Hy]; [subst y; exact D1 | apply L; exact Hy].
+  Qed.
+
+  Lemma exec_all_safe : forall st tasks,
+    compiled_ok st -> emit_ok st -> hret_ok st -> tasks_ok st tasks ->
+    match exec_all asrt emit st tasks with
+    | inl o => o = RTypeErr
+    | inr done => forall y, In y done -> done_ok st y
+    end.
+  Proof.
+    intros st tasks CO EM HR HT. unfold exec_all.
     assert (F1 : forallb (fun t => has_node st (fst t)) tasks = true).
     { apply forallb_forall. intros x Hx. apply (HT x Hx). }
     rewrite F1; simpl.
-    assert (F2 : forallb (pre_ok asrt st) tasks = true).
-    { apply forallb_forall. intros [k d] Hx. destruct (HT _ Hx) as [[t [It At]] Hn]. simpl in *.
-      unfold pre_ok; simpl. destruct (get_node st k) as [n|] eqn:G; [|reflexivity].
-      destruct (n_pre n) as [t0|] eqn:Pn; [|reflexivity].
-      destruct (NO k n G) as [[_ [_ [Pr _]]] _]. specialize (Pr t0 Pn).
-      destruct (types_of_node st k n NO G) as [Ti _].
-      destruct (n_pass n).
-      - subst t0. apply assert_any.
-      - rewrite Ti in It. rewrite Pr in It. inversion It; subst. exact At. }
-    rewrite F2; simpl.
-    assert (H3 : forall x, In x tasks -> exists o, node_out asrt emit st x = Some o /\ done_ok st (fst x, o) /\
-                                       post_ok asrt st (fst x) (Some o) = true).
-    { intros [k d] Hx. destruct (HT _ Hx) as [[t [It At]] Hn]. simpl in *.
-      unfold has_node in Hn. destruct (get_node st k) as [n|] eqn:G; [|discriminate].
-      destruct (NO k n G) as [[Pp [Pl [_ Po]]] _].
-      destruct (types_of_node st k n NO G) as [Ti To].
-      unfold node_out, post_ok; simpl. rewrite G.
-      destruct (n_pass n) eqn:Pn.
-      - exists d. split; [reflexivity|]. split.
-        + exists t. simpl. split; [rewrite To, <- (Pp eq_refl), <- Ti; exact It | apply has_type_assert; exact At].
-        + destruct (n_post n) as [t0|] eqn:Q; [|reflexivity]. specialize (Po t0 eq_refl). simpl in Po. subst t0. apply assert_any.
-      - destruct (Pl eq_refl) as [ti [to [Hi Ho]]]. rewrite Hi.
-        rewrite Ti, Hi in It. inversion It; subst t. rewrite At.
-        exists (emit_of emit st k). split; [reflexivity|]. split.
-        + exists to. simpl. split; [rewrite To; exact Ho | eapply EM; eauto].
-        + destruct (n_post n) as [t0|] eqn:Q; [|reflexivity]. specialize (Po t0 eq_refl). simpl in Po.
-          apply assert_has_type. eapply EM; eauto. }
-    destruct (collect_outs_ok st tasks H3) as [F3 [l [Cl Dl]]].
-    rewrite F3; simpl. rewrite Cl. exists l. split; [reflexivity | exact Dl].
+    pose proof (pre_all_safe st tasks CO HR HT) as PS.
+    destruct (pre_all asrt st tasks) as [o|t1]; [exact PS|].
+    destruct (collect_safe st t1 CO EM HR PS) as [F L]. rewrite F. simpl. exact L.
   Qed.
 
   Lemma loop_safe : forall st steps tasks,
-    compiled_ok st -> emit_ok st ->
-    (forall x, In x tasks -> task_ok st x /\ has_node st (fst x) = true) ->
+    compiled_ok st -> emit_ok st -> hret_ok st -> tasks_ok st tasks ->
     loop u asrt emit st steps tasks <> RPanicRec /\ loop u asrt emit st steps tasks <> RPanicEsc.
   Proof.
-    intros st steps. induction steps as [|n IH]; intros tasks CO EM HT; simpl; [split; discriminate|].
+    intros st steps. induction steps as [|n IH]; intros tasks CO EM HR HT; simpl; [split; discriminate|].
     destruct tasks as [|x rest] eqn:T; [split; discriminate|]. rewrite <- T in *.
-    destruct (exec_all_safe st tasks CO EM HT) as [done [E D]]. rewrite E.
-    pose proof (next_safe st done CO D) as NS.
+    pose proof (exec_all_safe st tasks CO EM HR HT) as ES.
+    destruct (exec_all asrt emit st tasks) as [o|done]; [subst o; split; discriminate|].
+    pose proof (next_safe st done CO ES) as NS.
     destruct (next u asrt st done) as [o|tasks']; [exact NS|].
     apply IH; auto.
   Qed.
 
   Theorem run_safe : forall st input,
-    compiled_ok st -> emit_ok st -> has_type u input (g_in st) = true ->
+    compiled_ok st -> emit_ok st -> hret_ok st -> has_type u input (g_in st) = true ->
     run u asrt emit st input <> RPanicRec /\ run u asrt emit st input <> RPanicEsc.
   Proof.
-    intros st input CO EM HI. unfold run.
+    intros st input CO EM HR HI. unfold run.
     assert (D : forall x, In x [(kSTART, input)] -> done_ok st x).
     { intros x [Hx|[]]. subst x. exists (g_in st). split; [reflexivity | exact HI]. }
     pose proof (next_safe st _ CO D) as NS.
